@@ -151,8 +151,12 @@ class BlockChain(object):
 
     def add_headers(self, header_iter: Iterable[Any]) -> list[Any]:
         def iterate() -> Generator[tuple[Any, Any], None, None]:
+            locked_length = len(self._locked_chain)
             for header in header_iter:
                 h = header.hash()
+                if self.hash_to_index_lookup.get(h, locked_length) < locked_length:
+                    # already locked: it is no longer tracked by the chain finder
+                    continue
                 self.weight_lookup[h] = header.difficulty
                 self.unlocked_block_storage[h] = header
                 yield h, header.previous_block_hash
